@@ -58,18 +58,23 @@ ASSUMPTIONS = [
     "least_number_of_transformations is only compared when both spaces describe the same categories and no covariates",
     "TRANSITS(0,NODEPOT) and ABSORPTION(FO)+TRANSITS(1,NODEPOT) on a stepwise path are optional (may be absent, not duplicated)",
     "descriptions with two LET of one name, empty arrays and reversed ranges are not generated (documentation silent)",
+    "a description that forces one covariate effect twice is documented to be refused; when it is accepted through a LET "
+    "reference and only its printed form is refused the case is counted ('forced-twice'), not failed",
+    "a description with LET statements only (empty space) is not round-tripped; a grammatical description may only be "
+    "refused with ValueError - any other exception of parse() is a failure",
     "mfl_funcs handed to the algorithms are sorted by feature key, as modelsearch.tool.filter_mfl_statements does",
 ]
 BOUNDS = {
-    "quick": "desc: full menu L<=2, small menu L<=3; pair: pool 260; sets n<=7; iiv 1..6 etas; algo: small product menu, "
-             "stepwise cap 120 paths",
-    "thorough": "desc: full menu L<=3, small menu L<=4; pair: pool 1500; sets n<=9; iiv 1..6 etas; algo: large product menu, "
-                "stepwise cap 500 paths",
+    "quick": "desc: full menu (137 statements) L<=2 and small menu (42) L<=3, 2 renderings each; pair: pool of 400 spaces "
+             "(160000 ordered pairs x 5 operations); sets n<=7; iiv: 18 models with 1..6 etas; algo: 540 spaces x <= 2 bases, "
+             "stepwise trees when the reference has <= 200 paths",
+    "thorough": "desc: full menu L<=3 and small menu L<=4; pair: pool of 1500 spaces (2.25e6 ordered pairs); sets n<=9; "
+                "iiv: 18 models with 1..6 etas; algo: 3228 spaces x <= 2 bases, stepwise trees when the reference has <= 400 paths",
 }
 
 PLAN = {
     "quick": {"desc": [("full", 2), ("small", 3)], "pool": 400, "sets": 7, "algo": "small", "cap": 200},
-    "thorough": {"desc": [("full", 3), ("small", 4)], "pool": 1500, "sets": 9, "algo": "large", "cap": 500},
+    "thorough": {"desc": [("full", 3), ("small", 4)], "pool": 1500, "sets": 9, "algo": "large", "cap": 400},
 }
 
 _MAXV = 60  # violations kept per shard
@@ -669,6 +674,20 @@ def check_iiv(label, model):
         cn = [t.task_input[0] for t in cands]
         if len(set(cn)) != len(cn):
             fails.append(("no_of_etas-names", f"candidate names not unique: {sorted(cn)[:6]}..."))
+    # keep=['CL']: every non-empty subset of the other etas
+    if "ETA_CL" in names:
+        try:
+            wf = I.td_exhaustive_no_of_etas(model, keep=["CL"])
+            got = [tuple(t.task_input[1]) for t in wf.tasks if t.function is I.create_no_of_etas_candidate_entry]
+            rest = [n for n in names if n != "ETA_CL"]
+            want = R.powerset(rest, 1, len(rest))
+            ncmp += 1
+            if sorted(map(frozenset, got), key=sorted) != sorted(map(frozenset, want), key=sorted):
+                fails.append(("no_of_etas-keep", f"td_exhaustive_no_of_etas(keep=['CL']) removes {len(got)} eta subsets "
+                                                 f"({len(set(map(frozenset, got)))} distinct), the {len(rest)} other etas have "
+                                                 f"{len(want)} non-empty subsets"))
+        except Exception as e:
+            fails.append(("no_of_etas-keep-exception", f"td_exhaustive_no_of_etas(keep=['CL']) raised {exc(e)}"))
     # block structures
     try:
         wf = I.td_exhaustive_block_structure(model)
